@@ -172,6 +172,7 @@ type opt struct {
 	stdout       io.Writer         // standard output
 	stderr       io.Writer         // standard error
 	args         []string          // cmdline args
+	hostArgs     bool              // cmdline args are those of the host
 	env          map[string]string // environment of interpreter, entries in form of "key=value"
 	filesystem   fs.FS             // filesystem containing sources
 	astDot       bool              // display AST graph (debug)
@@ -351,7 +352,7 @@ func New(options Options) *Interpreter {
 	}
 
 	if i.opt.args = options.Args; i.opt.args == nil {
-		i.opt.args = os.Args
+		i.opt.args, i.opt.hostArgs = os.Args, true
 	}
 
 	// unrestricted allows to use non sandboxed stdlib symbols and env.
